@@ -367,6 +367,7 @@ func init() {
 						continue
 					}
 					oracleStalls(c, &sc2, run)
+					oracleWaits(c, &sc2, run)
 					c.rep.OracleChecked++
 					if run.Err == nil && verbs[pos] != "QUIT" {
 						c.Violate("c17-no-error", "the server stalled at "+verbs[pos]+" but DialAndSend returned nil", &sc2)
